@@ -55,6 +55,8 @@ func init() {
 		// ---- std stubs
 		"strconv.Atoi":       sAtoi,
 		"strconv.Itoa":       sItoa,
+		"strconv.ParseInt":   sParseInt(true),
+		"strconv.ParseUint":  sParseInt(false),
 		"errors.New":         sErrorsNew,
 		"fmt.Errorf":         sErrorf,
 		"fmt.Sprintf":        sSprintf,
@@ -416,6 +418,44 @@ func hAtoiVal(in *Interp, g *G, fv *FuncV, a []Value) Value {
 	in.atoiAxiom("")
 	_, v := in.atoiTerms(s)
 	return v
+}
+
+// ParseInt / ParseUint (base 10 or 0, any bit size <= 64 taken as 64): the same
+// uninterpreted parser as Atoi; ParseUint additionally rejects negative values.
+func sParseInt(signed bool) intrinsicFn {
+	return func(in *Interp, g *G, fv *FuncV, a []Value) Value {
+		tc := in.tc
+		s := a[0].(*Term)
+		base := a[1].(*Term)
+		if base.op != OpConstBV || (base.bv != 10 && base.bv != 0) {
+			panic(unsupported("strconv.ParseInt with a base other than 10"))
+		}
+		mkErr := func() Value { return IfaceV{T: in.errType, V: in.newErr("strconv.ParseInt: invalid syntax", nil)} }
+		if s.op == OpConstStr {
+			in.atoiAxiom(s.str)
+			if signed {
+				n, err := strconv.ParseInt(s.str, 10, 64)
+				if err != nil {
+					return TupleV{tc.BV(0, 64), mkErr()}
+				}
+				return TupleV{tc.BV(uint64(n), 64), IfaceV{}}
+			}
+			n, err := strconv.ParseUint(s.str, 10, 64)
+			if err != nil {
+				return TupleV{tc.BV(0, 64), mkErr()}
+			}
+			return TupleV{tc.BV(n, 64), IfaceV{}}
+		}
+		in.atoiAxiom("")
+		okT, valT := in.atoiTerms(s)
+		if !signed {
+			okT = tc.And(okT, tc.BVCmp(OpBVSle, tc.BV(0, 64), valT))
+		}
+		if in.branch(okT) {
+			return TupleV{valT, IfaceV{}}
+		}
+		return TupleV{tc.BV(0, 64), mkErr()}
+	}
 }
 
 func sItoa(in *Interp, g *G, fv *FuncV, a []Value) Value {
